@@ -3,7 +3,7 @@
    becomes connected, which strategy call a step makes) are read off p4's definitions by case
    analysis; the strategy is C14's (Proofs/RetryProofs.v), admission is C09's (Proofs/TlsProofs.v). *)
 From Coq Require Import NArith List Bool Lia.
-From Rodbus Require Import Model.Retry Spec.RetrySpec Proofs.RetryProofs Spec.Lifecycle Spec.ClientSpec Gen.SessionErrors
+From Rodbus Require Import Model.Retry Spec.RetrySpec Proofs.RetryProofs Spec.Lifecycle Spec.ClientSpec Gen.SessionErrors Proofs.C13Proofs Proofs.C13Live
   Model.ClientTask Proofs.ClientBase Spec.TlsSpec Gen.TlsVersions Gen.TlsModes Model.Tls Proofs.TlsProofs Model.ClientFront.
 Import ListNotations.
 Local Open Scope N_scope.
@@ -132,17 +132,6 @@ Proof.
 Qed.
 End Task.
 
-(* environment events do not move the task (it is not polled) *)
-Lemma env_keeps_phase cfg s e : is_env e = true -> e <> EvAbort -> ph (fst (ClientTask.step cfg s e)) = ph s.
-Proof.
-  intros He Hna. destruct s as [p q b h en tx tc rt dc nw pa wf wd].
-  destruct e as [c st| | |ok| | | | | | | | | | |]; try discriminate He; try contradiction; cbn -[Retry.step drop_queue];
-    repeat (break_match; cbn -[Retry.step drop_queue]; try reflexivity); reflexivity.
-Qed.
-
-Lemma abort_not_connected cfg s : connected (ph (fst (ClientTask.step cfg s EvAbort))) = true -> connected (ph s) = true.
-Proof. apply connected_only_via_connect. discriminate. Qed.
-
 (* ------------------------------------------------------------------ the composed model *)
 Section Front.
 Variable cfg : ClientTask.config.
@@ -164,25 +153,14 @@ Proof.
   - intros (min & mode & ng & p & v & -> & -> & E). rewrite admission, E. reflexivity.
 Qed.
 
-Definition is_abort (e : ClientTask.event) : bool := match e with EvAbort => true | _ => false end.
-Lemma is_abort_true e : is_abort e = true -> e = EvAbort.
-Proof. destruct e; try discriminate; reflexivity. Qed.
-Lemma is_abort_false e : is_abort e = false -> e <> EvAbort.
-Proof. intros H E; subst; discriminate. Qed.
-
 Lemma connect_or_not ev : (exists b, ev = EvConnect b) \/ (forall b, ev <> EvConnect b).
 Proof. destruct ev; try (right; intros; discriminate). left; eauto. Qed.
 
-(* the composed step on an event of the task model, in closed form *)
+(* the composed step on an event of the task model, in closed form: p4's step on the core *)
 Lemma cstep_CE f ev : (forall b, ev <> EvConnect b) ->
   cstep f (CE ev) =
-    match hs f with
-    | Some k => if is_env ev
-                then (let '(s', o) := step (core f) ev in
-                      ({| core := s'; hs := if is_abort ev then None else hs f; last_server := last_server f |}, o))
-                else (f, [])
-    | None => let '(s', o) := step (core f) ev in ({| core := s'; hs := None; last_server := last_server f |}, o)
-    end.
+    (let '(s', o) := step (core f) ev in
+     ({| core := s'; hs := match hs f, ph s' with Some k, PConnecting => Some k | _, _ => None end; last_server := last_server f |}, o)).
 Proof.
   intros Hne. unfold ClientFront.cstep. destruct ev; try reflexivity. exfalso. now apply (Hne ok).
 Qed.
@@ -206,21 +184,12 @@ Proof.
   - (* CE *)
     destruct (connect_or_not ev) as [(b & ->)|Hne]; [exact Hf|].
     fold (ClientFront.cstep cfg tr f (CE ev)). rewrite (cstep_CE f ev Hne).
-    destruct (hs f) as [hk|] eqn:Eh.
-    + destruct (I1 hk eq_refl) as [Hp Htr]. destruct (is_env ev) eqn:Eenv.
-      2:{ cbn [fst]. unfold finv. split; [intros k0 E0; rewrite Eh in E0; inversion E0; subst; now split|intros Hc; rewrite Hp in Hc; discriminate]. }
-      destruct (step (core f) ev) as [s' o] eqn:Es. cbn [fst core hs last_server].
-      destruct (is_abort ev) eqn:Eab.
-      * apply is_abort_true in Eab. subst ev. unfold finv; cbn [core hs last_server]. split; [intros k0 E0; discriminate|]. intros Hc. exfalso.
-        assert (Hx : connected (ph (core f)) = true) by (apply (abort_not_connected cfg); rewrite Es; exact Hc).
-        rewrite Hp in Hx. discriminate.
-      * apply is_abort_false in Eab.
-        assert (Hph : ph s' = ph (core f)) by (change s' with (fst (s', o)); rewrite <- Es; now apply env_keeps_phase).
-        unfold finv; cbn [core hs last_server].
-        split; [intros k0 E0; inversion E0; subst; rewrite Hph; now split|intros Hc; rewrite Hph, Hp in Hc; discriminate].
-    + destruct (step (core f) ev) as [s' o] eqn:Es. cbn [fst core hs last_server]. unfold finv; cbn [core hs last_server].
-      split; [intros k0 E0; discriminate E0|]. intros Hc. split; [reflexivity|]. apply I2.
-      apply (connected_only_via_connect cfg (core f) ev); [apply Hne|rewrite Es; exact Hc].
+    destruct (step (core f) ev) as [s' o] eqn:Es. cbn [fst]. unfold finv; cbn [core hs last_server]. split.
+    + intros k0 E0. destruct (hs f) as [hk|] eqn:Eh; [|discriminate]. destruct (ph s') eqn:Ep; try discriminate.
+      split; [reflexivity|]. exact (proj2 (I1 hk eq_refl)).
+    + intros Hc. split.
+      * destruct (hs f); [|reflexivity]. destruct (ph s'); try reflexivity. discriminate Hc.
+      * apply I2. apply (connected_only_via_connect cfg (core f) ev); [apply Hne|rewrite Es; exact Hc].
   - (* CTcp *)
     destruct (hs f) as [k0|] eqn:Eh; [exact Hf|].
     destruct (ph (core f)) eqn:Ep; try (exact Hf).
@@ -269,7 +238,6 @@ Proof.
   unfold ClientFront.cstep. destruct e as [ev|ok k|].
   - destruct (connect_or_not ev) as [(b & ->)|Hne]; [right; split; reflexivity|].
     fold (ClientFront.cstep cfg tr f (CE ev)). rewrite (cstep_CE f ev Hne).
-    destruct (hs f); [destruct (is_env ev); [left; exists ev; destruct (step (core f) ev); reflexivity|right; split; reflexivity]|].
     left; exists ev; destruct (step (core f) ev); reflexivity.
   - destruct (hs f); [right; split; reflexivity|]. destruct (ph (core f)); try (right; split; reflexivity).
     destruct ok; [destruct tr; [left; exists (EvConnect true); destruct (step (core f) (EvConnect true)); reflexivity|right; split; reflexivity]|].
@@ -331,7 +299,7 @@ Proof.
     fold (ClientFront.cstep cfg tr f (CE ev)) in Hin. rewrite (cstep_CE f ev Hne) in Hin.
     assert (Hno : ~ In (OListen LConnected) (snd (step (core f) ev))).
     { intros Hx. apply connected_announced_iff in Hx. destruct Hx as [Hx _]. now apply (Hne true). }
-    destruct (hs f); [destruct (is_env ev); [|destruct Hin]|]; destruct (step (core f) ev) as [s' o]; cbn [snd] in *; now apply Hno.
+    destruct (step (core f) ev) as [s' o]; cbn [snd] in *; now apply Hno.
   - destruct (hs f) as [k0|] eqn:Eh.
     { split; [intros []|]. intros (_ & [(_ & E & _)|(k1 & _ & E & _)]); discriminate. }
     destruct (ph (core f)) eqn:Ep;
@@ -453,16 +421,69 @@ Proof.
 Qed.
 End Retry.
 
-(* ------------------------------------------------------------------ observation: the handshake is not raced with the command queue *)
-Lemma handshake_not_raced_witness :
+(* ------------------------------------------------------------------ the handshake is raced with the command queue *)
+Section Raced.
+Variable cfg : ClientTask.config.
+Variable tr : ctransport.
+
+(* while the handshake is pending, every event of the task model is handled exactly as p4's Connecting phase handles it *)
+Lemma parked_is_connecting f ev : (forall b, ev <> EvConnect b) ->
+  (core (fst (cstep cfg tr f (CE ev))), snd (cstep cfg tr f (CE ev))) = ClientTask.step cfg (core f) ev.
+Proof. intros Hne. rewrite (cstep_CE cfg tr f ev Hne). destruct (ClientTask.step cfg (core f) ev); reflexivity. Qed.
+
+(* Shutdown while the handshake is pending ends the task at once, with exactly one Shutdown notification,
+   and the handshake (the socket) is dropped; a queued request fails at once with NoConnection *)
+Lemma shutdown_during_handshake f k q : finv tr f -> hs f = Some k -> queue (core f) = CShutdown :: q ->
+  let f' := fst (cstep cfg tr f (CE EvRecv)) in
+  ph (core f') = PDone /\ hs f' = None /\ listens_of (snd (cstep cfg tr f (CE EvRecv))) = [LShutdown].
+Proof.
+  intros [I1 _] Hk Hq. destruct (I1 k Hk) as [Hp _]. cbv zeta.
+  assert (Hl : listens (ph (core f)) = true) by (rewrite Hp; reflexivity).
+  destruct (proj1 (c13_terminates cfg (core f) Hl) q Hq) as [Hd Hs].
+  rewrite (cstep_CE cfg tr f EvRecv) by (intros b; discriminate).
+  destruct (ClientTask.step cfg (core f) EvRecv) as [s' o]. cbn [fst snd core hs] in *. rewrite Hd.
+  split; [reflexivity|]. split; [destruct (hs f); reflexivity|exact Hs].
+Qed.
+
+Lemma request_during_handshake_fails_fast f k r q : finv tr f -> hs f = Some k -> queue (core f) = CReq r :: q ->
+  snd (cstep cfg tr f (CE EvRecv)) = [OComplete (rq_id r) (RErr ReNoConnection)] /\ hs (fst (cstep cfg tr f (CE EvRecv))) = Some k.
+Proof.
+  intros [I1 _] Hk Hq. destruct (I1 k Hk) as [Hp _].
+  assert (Hl : listens (ph (core f)) = true) by (rewrite Hp; reflexivity).
+  assert (Hc : connected (ph (core f)) = false) by (rewrite Hp; reflexivity).
+  pose proof (c13_fail_fast cfg (core f) r q Hl Hc Hq) as Hs.
+  rewrite (cstep_CE cfg tr f EvRecv) by (intros b; discriminate). rewrite Hs. cbn [fst snd core hs ph set_chan]. rewrite Hk, Hp. split; reflexivity.
+Qed.
+
+(* p4's liveness theorem now holds for the composed TLS client in EVERY state, the handshake included:
+   the task's own steps (recv, timers, clock) on the composed model are p4's steps on its core *)
+Lemma crun_internal es : forallb internal es = true -> forall f,
+  core (fst (crun cfg tr f (map CE es))) = fst (ClientTask.run cfg (core f) es).
+Proof.
+  induction es as [|e r IH]; intros Hi f; [reflexivity|]. cbn [forallb] in Hi. apply andb_prop in Hi. destruct Hi as [He Hr].
+  cbn [map ClientFront.crun ClientTask.run].
+  assert (Hne : forall b, e <> EvConnect b) by (intros b E; subst; discriminate He).
+  pose proof (parked_is_connecting f e Hne) as Hp.
+  destruct (cstep cfg tr f (CE e)) as [f1 o1]. cbn [fst snd] in Hp.
+  destruct (ClientTask.step cfg (core f) e) as [s1 p1]. inversion Hp; subst.
+  specialize (IH Hr f1). destruct (crun cfg tr f1 (map CE r)) as [f2 o2]. cbn [fst] in *.
+  destruct (ClientTask.run cfg (core f1) r) as [s2 p2]. cbn [fst] in *. exact IH.
+Qed.
+
+Lemma front_shutdown_from_every_state f :
+  (queue (core f) = [] -> blocked (core f) = []) -> In CShutdown (queue (core f) ++ blocked (core f)) -> ph (core f) <> PDone ->
+  exists es, forallb internal es = true /\ ph (core (fst (crun cfg tr f (map CE es)))) = PDone.
+Proof.
+  intros H1 H2 H3. destruct (shutdown_from_every_state cfg (core f) H1 H2 H3) as (es & Hi & Hd).
+  exists es. split; [exact Hi|]. now rewrite (crun_internal es Hi f).
+Qed.
+End Raced.
+
+(* the scenario that used to be the observation: a TLS server that accepts and stays silent *)
+Lemma handshake_raced_witness :
   let cfg := {| cfg_cap := 4%nat; cfg_res := 1 |} in
   let tr := CTls V1_2 AuthorityBased true in
-  let es := [CE (EvSubmit CEnable SFuture); CE EvRecv; CTcp true SrvStalls;
-             CE (EvSubmit CShutdown SFuture); CE EvRecv; CE (EvTick 60000000000); CE EvTimer; CE EvRecv; CHandshake; CE EvRecv] in
-  let '(f, o) := crun cfg tr (cinit 1 None 20 70) es in
-  hs f = Some SrvStalls /\ queue (core f) = [CShutdown] /\ ph (core f) = PConnecting /\
-  listens_of o = [LConnecting] /\
-  (* whereas the same command while the TCP connect itself is pending is honoured at once *)
-  listens_of (snd (crun cfg tr (cinit 1 None 20 70)
-                     [CE (EvSubmit CEnable SFuture); CE EvRecv; CE (EvSubmit CShutdown SFuture); CE EvRecv])) = [LConnecting; LShutdown].
+  let '(f, o) := crun cfg tr (cinit 1 None 20 70)
+                   [CE (EvSubmit CEnable SFuture); CE EvRecv; CTcp true SrvStalls; CE (EvSubmit CShutdown SFuture); CE EvRecv] in
+  hs f = None /\ ph (core f) = PDone /\ listens_of o = [LConnecting; LShutdown].
 Proof. vm_compute. repeat split; reflexivity. Qed.
